@@ -32,7 +32,7 @@ class QueueCheck:
 
     def floors(self, tier):
         return scaled_floors("C20", ["cancel.waiting", "cancel.inside", "cancelled_waiting", "exit.cancelled", "exit.raise", "exit.normal",
-                                     "join_returned.waited", "join_returned.immediate", "exit.nested_outer", "exit.nested_inner"], tier, 20)
+                                     "join_returned.waited", "join_returned.immediate", "exit.nested_outer", "exit.nested_inner", "put.same_object_as_previous"], tier, 20)
 
     def timeout(self, tier):
         return 900 if tier == "quick" else 7200
